@@ -12,3 +12,5 @@ pub mod sched;
 pub mod world;
 
 pub mod scen_traffic;
+pub mod scen_life;
+pub mod scen_wait;
